@@ -16,6 +16,8 @@ import (
 	"encoding/binary"
 	"errors"
 	"fmt"
+	"os"
+	"strings"
 	"sync"
 	"testing"
 	"testing/synctest"
@@ -71,6 +73,7 @@ type c04Variant struct {
 	EMS     bool   `json:"ems"`
 	Resumed bool   `json:"resumed"`
 	HRR     bool   `json:"hrr"` // DTLS 1.3: force a HelloRetryRequest
+	CID     bool   `json:"cid"` // connection IDs negotiated
 }
 
 func c04Variants() []c04Variant {
@@ -87,6 +90,8 @@ func c04Variants() []c04Variant {
 			out = append(out, c04Variant{Name: s + "-" + e + "-resumed", Ver: 12, Suite: s, EMS: ems, Resumed: true})
 		}
 	}
+	out = append(out, c04Variant{Name: "cert-noems-full-cid", Ver: 12, Suite: "cert", CID: true})
+	out = append(out, c04Variant{Name: "psk-ems-full-cid", Ver: 12, Suite: "psk", EMS: true, CID: true})
 	out = append(out, c04Variant{Name: "v13-cert", Ver: 13, Suite: "cert", EMS: true})
 	out = append(out, c04Variant{Name: "v13-cert-hrr", Ver: 13, Suite: "cert", EMS: true, HRR: true})
 
@@ -127,13 +132,20 @@ func (v c04Variant) configs(cs, ss *c04Store) (*dtlsConfig, *dtlsConfig) {
 	for _, k := range []*dtlsConfig{c, s} {
 		k.SupportedProtocols = []string{"verif-a", "verif-b"}
 		k.SRTPProtectionProfiles = []SRTPProtectionProfile{SRTP_AES128_CM_HMAC_SHA1_80, SRTP_AEAD_AES_128_GCM}
-		k.ConnectionIDGenerator = RandomCIDGenerator(4)
+		if v.CID {
+			k.ConnectionIDGenerator = RandomCIDGenerator(4)
+		}
 		if !v.EMS {
 			k.ExtendedMasterSecret = DisableExtendedMasterSecret
 		}
 		if v.Ver == 13 {
 			k.MinVersion, k.MaxVersion = protocol.Version1_3, protocol.Version1_3
 		}
+	}
+	if v.Ver == 13 {
+		// keep the ClientHello in one record (the hybrid ML-KEM share would fragment it)
+		c.EllipticCurves = []elliptic.Curve{elliptic.X25519, elliptic.P256}
+		s.EllipticCurves = []elliptic.Curve{elliptic.X25519, elliptic.P256}
 	}
 	if v.HRR {
 		// the client's first key share is for X25519; the server only accepts P-256
@@ -369,6 +381,9 @@ func c04Muts() []c04Mut { //nolint:maintidx,cyclop
 			return true
 		})},
 		{Name: "ch_flip_cookie", Dir: "c2s", HType: tCH, Occ: 2, Fn: c04CH(func(_ c04Variant, m *handshake.MessageClientHello) bool {
+			if len(m.Cookie) == 0 {
+				return false
+			}
 			m.Cookie = c04FlipLast(m.Cookie)
 
 			return true
@@ -399,6 +414,9 @@ func c04Muts() []c04Mut { //nolint:maintidx,cyclop
 		{Name: "hvr_cookie", Dir: "s2c", HType: tHVR, Fn: func(_ c04Variant, m handshake.Message) (handshake.Message, bool) {
 			h, ok := m.(*handshake.MessageHelloVerifyRequest)
 			if !ok {
+				return m, false
+			}
+			if len(h.Cookie) == 0 {
 				return m, false
 			}
 			h.Cookie = c04FlipLast(h.Cookie)
@@ -693,7 +711,12 @@ type c04Obs struct {
 	BaseALPN string     `json:"base_alpn"`
 	BaseSRTP int        `json:"base_srtp"`
 	Wire     []c03WireAlert `json:"wire_alerts"`
+	Delivered int       `json:"delivered"`
+	Storm    bool       `json:"storm"` // more than c04MaxDatagrams datagrams: endpoints answer each other without pause
+	Tail     []string   `json:"tail,omitempty"` // last datagrams of a storm (sender:first-byte:length)
 }
+
+const c04MaxDatagrams = 400
 
 type c03WireAlert struct {
 	From  string `json:"from"`
@@ -821,6 +844,12 @@ func c04Pump(lab *vLab, obs *c04Obs, v c04Variant, mut *c04Mut, next *int, done 
 		progressed := false
 		for _, d := range lab.Net.since(*next) {
 			*next = d.Idx + 1
+			if obs.Delivered >= c04MaxDatagrams {
+				obs.Storm = true // datagrams keep flowing without any timer firing: give up
+
+				return
+			}
+			obs.Delivered++
 			if data := c04Rewrite(obs, v, mut, d); len(data) > 0 {
 				lab.Net.deliver(d.To, d.From, data)
 				synctest.Wait()
@@ -872,6 +901,24 @@ func runC04(t *testing.T, v c04Variant, mut *c04Mut) c04Obs {
 	c04Pump(lab, &obs, v, mut, &next, func() bool { return false }, 2*time.Second)
 	obs.CRes, obs.CErr = c04Class(lab.Client)
 	obs.SRes, obs.SErr = c04Class(lab.Server)
+	if obs.Storm || os.Getenv("C04_TRACE") != "" {
+		all := lab.Net.since(0)
+		if os.Getenv("C04_TRACE") != "" {
+			if len(all) > 60 {
+				all = all[:60]
+			}
+			for _, d := range all {
+				line := fmt.Sprintf("%d %s %dms len=%d:", d.Idx, d.From, d.T.Milliseconds(), len(d.Data))
+				for _, r := range vParseDatagram(d.Data, 0) {
+					line += fmt.Sprintf(" [ct=%d e=%d ht=%d ms=%d uni=%v]", r.CT, r.Epoch, r.HType, r.MsgSeq, r.Uni)
+				}
+				fmt.Println(line)
+			}
+		}
+		for _, d := range all[max(0, len(all)-8):] {
+			obs.Tail = append(obs.Tail, fmt.Sprintf("%s:%02x:%d@%dms", d.From, d.Data[0], len(d.Data), d.T.Milliseconds()))
+		}
+	}
 	for _, d := range lab.Net.since(0) {
 		for _, r := range vParseDatagram(d.Data, 0) {
 			if r.CT == int(protocol.ContentTypeAlert) && r.Epoch == 0 && !r.Uni && len(r.Raw) >= 15 {
@@ -904,8 +951,12 @@ func runC04(t *testing.T, v c04Variant, mut *c04Mut) c04Obs {
 func TestVerifC04(t *testing.T) {
 	out := newVOut(t)
 	muts := c04Muts()
+	only := os.Getenv("C04_ONLY") // "variant:mutation" (debugging / replay)
 	for _, v := range c04Variants() {
 		v := v
+		if only != "" && !strings.HasPrefix(only, v.Name+":") {
+			continue
+		}
 		var base c04Obs
 		vBubble(t, func(t *testing.T) { base = runC04(t, v, nil) })
 		base.BaseSuite, base.BaseALPN, base.BaseSRTP = base.CSuite, base.CALPN, base.CSRTP
@@ -917,6 +968,9 @@ func TestVerifC04(t *testing.T) {
 				continue
 			}
 			if v.Ver == 13 && m.HType != handshake.TypeClientHello && m.HType != handshake.TypeServerHello {
+				continue
+			}
+			if only != "" && only != v.Name+":"+m.Name && only != v.Name+":" {
 				continue
 			}
 			var obs c04Obs
